@@ -152,7 +152,7 @@ def adopt(dirs):
             print('REJECTED', d, {k: c.get(k) for k in ('applies', 'demo_differs', 'tests_pass', 'touches_tests', 'error')})
             continue
         meta = json.load(open(os.path.join(d, 'meta.json')))
-        dest = os.path.join(VERIF, 'seeded', meta['property'], ('r2-' if '/rt2/' in d else 'r3-' if '/rt3/' in d else 'r4-' if '/rt4/' in d else '') + os.path.basename(d))
+        dest = os.path.join(VERIF, 'seeded', meta['property'], ('r2-' if '/rt2/' in d else 'r3-' if '/rt3/' in d else 'r4-' if '/rt4/' in d else 'r5-' if '/rt5/' in d else '') + os.path.basename(d))
         if os.path.exists(os.path.join(dest, 'meta.json')) and 'rebased' in json.load(open(os.path.join(dest, 'meta.json'))):
             print('skip (adopted copy was rebased by hand):', dest)
             continue
